@@ -142,6 +142,17 @@ pub open spec fn temp_name() -> Seq<u8> {
     seq![0x2eu8, 0x6b, 0x69, 0x73, 0x6d, 0x65, 0x74, 0x5f, 0x74, 0x65, 0x6d, 0x70]
 }
 
+/// What a directory listing looks like (assumption about readdir): readable items carry the name
+/// of a distinct existing child; `None` stands for an item the OS failed to return.
+pub open spec fn listing_of(l: Seq<Option<Seq<u8>>>, w: World, dir: PathV) -> bool {
+    &&& forall|i: int| 0 <= i < l.len() && l[i].is_some() ==> single_component(#[trigger] l[i].unwrap()) && (w.files.contains_key(
+        child(dir, l[i].unwrap()),
+    ) || w.dirs.contains(child(dir, l[i].unwrap())))
+    &&& forall|i: int, j: int| 0 <= i < j < l.len() && l[i].is_some() && l[j].is_some() ==> #[trigger] l[i].unwrap() != #[trigger] l[j].unwrap()
+    &&& (forall|i: int| 0 <= i < l.len() ==> (#[trigger] l[i]).is_some()) ==> forall|n: Seq<u8>|
+        #[trigger] w.files.contains_key(child(dir, n)) ==> l.contains(Some(n))
+}
+
 impl World {
     /// p names a cache entry: a valid key directly inside a configured read-write cache directory.
     pub open spec fn is_entry(self, p: PathV) -> bool {
@@ -151,6 +162,12 @@ impl World {
     /// p is directly inside the `.kismet_temp` subdirectory of a configured cache directory.
     pub open spec fn is_temp_child(self, p: PathV) -> bool {
         p.len() > 1 && base_name(parent(p)) == temp_name() && self.cache_dirs.contains(parent(parent(p)))
+    }
+
+    /// p is directly inside a configured cache directory and outside the dot namespace: the only
+    /// names maintenance may ever evict (C17).  Every entry path is of this form.
+    pub open spec fn in_cache_namespace(self, p: PathV) -> bool {
+        p.len() > 0 && self.cache_dirs.contains(parent(p)) && single_component(base_name(p)) && base_name(p)[0] != 0x2e
     }
 
     pub open spec fn under_ro(self, p: PathV) -> bool {
@@ -219,7 +236,7 @@ impl World {
     /// targets a configured cache directory, its temp subdirectory, or a private file (C16).
     pub open spec fn may_mutate(self, p: PathV) -> bool {
         &&& !self.under_ro(p)
-        &&& (self.owned.contains(p) || self.is_entry(p) || self.is_temp_child(p))
+        &&& (self.owned.contains(p) || self.in_cache_namespace(p) || self.is_temp_child(p))
     }
 
     pub open spec fn may_mkdir(self, p: PathV) -> bool {
